@@ -65,6 +65,38 @@ def call(w, fn, *a, **kw):
                 w.stats['final_in_op'] += 1
     A.begin_op(hook if w.pending_final is not None else None)
     w.last_call = (fn, a, kw)
+    tracer_on = False
+    if w.pending_line is not None and w.limbo:
+        # fine-grained mode: the finalizers run at the k-th *line* executed
+        # inside dd/bdd.py or dd/autoref.py during this call (sys.settrace)
+        import sys as _sys
+        src = seams.DD.bdd.__file__
+        src2 = seams.DD.autoref.__file__
+        state = [w.pending_line]
+        w.pending_line = None
+
+        def local(frame, event, arg):
+            if event == 'line' and state[0] is not None:
+                state[0] -= 1
+                if state[0] <= 0:
+                    state[0] = None
+                    _sys.settrace(None)
+                    if w.finalize():
+                        info['final_in_op'] = True
+                        info['final_at_line'] = f'{frame.f_code.co_name}:{frame.f_lineno}'
+                        w.stats['final_at_line'] += 1
+                    return None
+            return local
+
+        def tracer(frame, event, arg):
+            if state[0] is None:
+                return None
+            fnm = frame.f_code.co_filename
+            if fnm == src or fnm == src2:
+                return local
+            return None
+        _sys.settrace(tracer)
+        tracer_on = True
     try:
         try:
             v = fn(*a, **kw)
@@ -80,6 +112,9 @@ def call(w, fn, *a, **kw):
             info['raised'] = r[0]
             return False, r
     finally:
+        if tracer_on:
+            import sys as _sys
+            _sys.settrace(None)
         info['calls'] = info.get('calls', 0) + A.calls
         info['fired'] = info.get('fired', 0) + A.fired
         if A.fired:
@@ -128,6 +163,31 @@ def stale_cache_tags(w, m, tt):
         tags.append('C14')
     w.notes.append('wrong answer disappears when the computed table is emptied')
     return tags
+
+
+def check_unique_table(w, m, tags):
+    """Steering probe made observable through the API (DESIGN 4.3): every
+    stored node is asked for again with `find_or_add(level, low, high)`; the
+    manager must answer with the node it already has.  A node missing from
+    the unique table would otherwise only show when some later operation
+    happens to rebuild it."""
+    g = w.mgrs[m]
+    sn = w.snapshot(m)
+    if sn.problems:
+        return
+    n0 = len(sn.succ)
+    for u, (i, lo, hi) in sn.succ.items():
+        if lo is None:
+            continue
+        try:
+            r = g.raw.find_or_add(i, lo, hi)
+        except Exception as e:
+            w.fail('exception:' + type(e).__name__, f'find_or_add({i}, {lo}, {hi}) for the stored node {u} raised {e!r:.100}', tags + ['C02'])
+        if r != u:
+            w.touch()
+            w.fail('I-canon', f'find_or_add({i}, {lo}, {hi}) returned {r} although node {u} is stored with exactly that level and children', tags + ['C02'])
+    w.touch()
+    w.stats['unique_table_probe'] += 1
 
 
 def ref_ok(w, m, val):
@@ -721,14 +781,42 @@ def op_gc(w, ins):
         # rooted collection: arbitrary stored nodes as roots
         nodes = sorted(pre.succ)
         roots = [nodes[i % len(nodes)] for i in ins['roots']] if nodes else []
+        if ins.get('neg'):
+            # references may be complemented
+            roots = [(-u if (ins['neg'] >> j) & 1 and u != 1 else u) for j, u in enumerate(roots)]
+        # what the documented cascade must free at least: start from the
+        # given roots whose count is zero, follow edges while counts drop to zero
+        cnt = dict(pre.refs)
+        must = set()
+        st = [abs(u) for u in roots if abs(u) != 1 and cnt.get(abs(u)) == 0]
+        while st:
+            u = st.pop()
+            if u in must:
+                continue
+            must.add(u)
+            i, lo, hi = pre.succ[u]
+            for c in (abs(lo), hi):
+                cnt[c] -= 1
+                if cnt[c] == 0 and c != 1:
+                    st.append(c)
         ok, v = call(w, g.raw.collect_garbage, roots)
         expect_ok(w, ok, v, 'C06', 'collect_garbage(roots)')
         w.stats['gc_rooted'] += 1
+        left = must & set(w.snapshot(m).succ)
+        if left:
+            w.fail('rooted_gc_kept', f'collect_garbage({roots}) kept {sorted(left)[:6]}, which have no references and are below the given roots', ['C06'])
     else:
         ok, v = call(w, g.api.collect_garbage)
         expect_ok(w, ok, v, 'C06', 'collect_garbage()')
         w.stats['gc_full'] += 1
-        w.check_exact(m, ['C06'] + (['C08'] if g.flavor == 'autoref' else []))
+        if w.cur_info.get('final_in_op'):
+            # a handle was finalized *inside* this collection, after the scan
+            # for unused nodes: its node legitimately waits for the next
+            # collection ("exactly the reachable nodes remain" is meant for
+            # the references that existed when the collection ran)
+            w.stats['gc_exact_not_judged_finalizer_inside'] += 1
+        else:
+            w.check_exact(m, ['C06'] + (['C08'] if g.flavor == 'autoref' else []))
     post = w.snapshot(m)
     # never frees anything reachable from an externally referenced node
     if len(post.succ) < len(pre.succ):
@@ -759,6 +847,8 @@ def op_swap(w, ins):
     if after != want:
         w.fail('wrong_order', f'after swap({ax!r},{ay!r}): order {after}, expected {want}', owner_tags(w, 'C07'))
     w.stats['swap'] += 1
+    if ins.get('x', 0) % 4 == 0:
+        check_unique_table(w, m, owner_tags(w, 'C07'))
 
 
 def _reorder_fn(w, g):
@@ -875,7 +965,10 @@ def op_finalize(w, ins):
 
 
 def op_arm_final(w, ins):
-    w.pending_final = max(1, ins['k'])
+    if ins.get('line'):
+        w.pending_line = max(1, ins['k'])
+    else:
+        w.pending_final = max(1, ins['k'])
 
 
 # ---------------------------------------------------------------------------
